@@ -150,6 +150,7 @@ class Exec(object):
         self.obl_prefix = ""
         self.replay_inputs = {}
         self.max_inline_depth = 12
+        self.trace_log = []        # (what, line, condition, pc) for debugging counterexamples
 
     # ------------------------------------------------------------------ objects
     def obj(self, *desc):
@@ -394,6 +395,7 @@ class Exec(object):
         if self.quick(st, z3.Not(cond)):
             return
         ctx.raises.append((rs, Exc(cls, self.new_exc(rs, cls, msg if msg is not None else VStr(sv(cls))))))
+        self.trace_log.append(("raise " + cls, getattr(node, "lineno", None), cond, st.pc))
         st.guard(z3.Not(cond))
 
     def new_exc(self, st, cls, msg):
@@ -762,6 +764,7 @@ class Exec(object):
         c = self.truth(self.eval(s.test, st, ctx), st)
         if st.dead:
             return None
+        self.trace_log.append(("if", s.lineno, c, st.pc))
         return self.branch(st, c, lambda x: self.exec_block(s.body, x, ctx),
                            lambda x: self.exec_block(s.orelse, x, ctx))
 
@@ -1588,6 +1591,7 @@ class Exec(object):
                 b = self.truth(self.eval_spec(cond, st.fork(), fid, spec_unit, pre), st)
             rs = st.fork()
             rs.guard(b)
+            self.trace_log.append(("callee-raises %s %s" % (label, cls), line, b, st.pc))
             if not rs.dead:
                 if c.modifies == "ALL":
                     rs.heap = Heap(fresh("DVx", DVs), fresh("DPx", DPs), fresh("LSx", LSs))
@@ -1724,6 +1728,9 @@ class Exec(object):
             else:
                 ghost[g] = z3.Const("g0_%s_%d" % (g, fid), {"bool": B, "int": I, "val": Val, "str": S,
                                                             "real": R, "seq": SeqV}[sort])
+        # the wall clock at entry: old(NOW()); every time.time() read is >= the previous one (A5)
+        ghost["__clock"] = z3.Const("g0_clock_%d" % fid, R)
+        self.assumptions.append(ghost["__clock"] >= 0)
         st = State(z3.BoolVal(True), {}, heap0, ghost)
         for pf in self.synthetic_frames:
             st.frames.setdefault(pf, {})
